@@ -262,6 +262,16 @@ func Universe(quick bool) []Case {
 			cases = append(cases, Case{V: v, Impl: "basic-newuint"})
 		}
 	}
+	// every bytes value of the sweep once more held by basicnode's reader-backed bytes node (a node that
+	// is read more than once per check: length, encode, observation)
+	for _, v := range ref.Sweep(bytesVals()) {
+		if ref.HasBytes(v) {
+			cases = append(cases, Case{V: v, Impl: "basic-readerbytes"})
+			if v.K == ref.KBytes {
+				cases = append(cases, Case{V: v, Impl: "basic-bytes-proto-of-reader"})
+			}
+		}
+	}
 	for _, v := range vals {
 		for _, impl := range ref.GenericImpls {
 			if hasKind(v, ref.KUint) && impl == "basic-kind" && v.K == ref.KUint {
@@ -378,3 +388,11 @@ func Replay(r *core.Run, raw json.RawMessage) {
 }
 
 var _ datamodel.Node
+
+func bytesVals() []ref.Val {
+	var out []ref.Val
+	for _, b := range ref.BytesFull() {
+		out = append(out, ref.Bytes(b))
+	}
+	return out
+}
